@@ -85,10 +85,31 @@ type C11Listener struct {
 	CloseSide    int  `json:"close_side,omitempty"`
 }
 
+// C11MuxOpt: options of one multiplexer. A mux created WithBlockedRead does not read from the
+// trunk before Unblock is called: before any traffic, when the AfterWrites-th Write towards it
+// is about to start (at the latest DelayMs after the traffic started), after the first Close of
+// a mux in the case, or never.
+type C11MuxOpt struct {
+	Blocked     bool   `json:"blocked,omitempty"`
+	Unblock     string `json:"unblock,omitempty"` // before_traffic | after_writes | after_close | never
+	AfterWrites int    `json:"after_writes,omitempty"`
+	DelayMs     int    `json:"delay_ms,omitempty"`
+	OmitQLen    bool   `json:"omit_qlen,omitempty"` // WithReadQueueLength not passed (only where the length is the default 256)
+}
+
+// late: the mux may still be blocked while the traffic of the case runs.
+func (o C11MuxOpt) late() bool { return o.Blocked && o.Unblock != "" && o.Unblock != "before_traffic" }
+
+// held: the mux stays blocked until a Close (or for ever).
+func (o C11MuxOpt) held() bool {
+	return o.Blocked && (o.Unblock == "after_close" || o.Unblock == "never")
+}
+
 type C11Case struct {
 	Kind     string       `json:"kind"` // mux | listener
 	QLen     int          `json:"qlen"`
-	Blocked  bool         `json:"blocked,omitempty"`
+	Blocked  bool         `json:"blocked,omitempty"` // older cases: both ends blocked, unblocked before any traffic
+	Opts     [2]C11MuxOpt `json:"mux_opts,omitempty"`
 	IDs      []uint32     `json:"ids"`
 	Streams  []C11Stream  `json:"streams,omitempty"`
 	Failure  C11Failure   `json:"failure"`
@@ -115,7 +136,7 @@ func genC11(t *rapid.T) C11Case {
 	if kind == "listener" {
 		return genC11Listener(t)
 	}
-	c := C11Case{Kind: "mux", Blocked: rapid.IntRange(0, 5).Draw(t, "blocked") == 0}
+	c := C11Case{Kind: "mux"}
 	if kind == "overflow" {
 		c.QLen = rapid.OneOf(rapid.IntRange(1, 8), rapid.IntRange(1, 64), rapid.SampledFrom([]int{1, 2, 256})).Draw(t, "qlen")
 	} else {
@@ -242,6 +263,49 @@ func genC11(t *rapid.T) C11Case {
 		}
 	}
 	c.Failure = f
+	for sd := 0; sd < 2; sd++ {
+		o := C11MuxOpt{OmitQLen: c.QLen == defaultQLen && rapid.Bool().Draw(t, "omit_qlen")}
+		switch rapid.SampledFrom([]string{"", "", "", "", "never", "after_close", "before_traffic", "after_writes", "never"}).Draw(t, "blocked_read") {
+		case "":
+		case "before_traffic":
+			o.Blocked, o.Unblock = true, "before_traffic"
+		case "after_writes":
+			o.Blocked, o.Unblock = true, "after_writes"
+			o.AfterWrites = rapid.IntRange(1, 8).Draw(t, "unblock_after")
+			o.DelayMs = rapid.SampledFrom([]int{1, 2, 5, 20}).Draw(t, "unblock_delay")
+		case "after_close":
+			o.Blocked, o.Unblock = true, "after_close"
+		case "never":
+			o.Blocked, o.Unblock = true, "never"
+		}
+		if kind == "overflow" && sd == f.Side && o.late() {
+			o.Unblock = "before_traffic" // the overflow needs a mux that reads its trunk
+		}
+		if o.held() {
+			// nothing is taken off the trunk: keep what is sent towards this mux within its queue
+			// length and the socket buffer, so that the writers do not wait for a reader
+			for si := range c.Streams {
+				st := &c.Streams[si]
+				if st.Dir != 1-sd || st.NoCredits {
+					continue
+				}
+				frames, bytes := 0, 0
+				for i, l := range st.Sizes {
+					if l > 4000 {
+						l = l % 97
+						st.Sizes[i] = l
+					}
+					frames++
+					bytes += muxHdrLen + l
+					if frames > c.QLen || bytes > 24<<10 {
+						st.Sizes = st.Sizes[:i]
+						break
+					}
+				}
+			}
+		}
+		c.Opts[sd] = o
+	}
 	if rapid.IntRange(0, 9).Draw(t, "reopen") < 4 {
 		n := rapid.IntRange(1, min(2, len(c.IDs))).Draw(t, "nreopen")
 		first := rapid.IntRange(0, len(c.IDs)-1).Draw(t, "reopen_conn")
@@ -251,7 +315,7 @@ func genC11(t *rapid.T) C11Case {
 			if rapid.IntRange(0, 1).Draw(t, "ro_conc") == 0 {
 				ro.Openers = rapid.StringMatching(`[od]{2,4}`).Draw(t, "ro_openers")
 			}
-			if rapid.IntRange(0, 2).Draw(t, "ro_old") == 0 {
+			if rapid.IntRange(0, 2).Draw(t, "ro_old") == 0 && !c.Opts[ro.Side].late() {
 				ro.OldFrames = rapid.IntRange(1, min(4, c.QLen)).Draw(t, "ro_oldframes")
 				ro.OldRead = rapid.IntRange(0, ro.OldFrames).Draw(t, "ro_oldread")
 			}
@@ -311,7 +375,12 @@ type cutConn struct {
 	mu             sync.Mutex // serialises Write accounting (the mux writes under its own lock anyway)
 	wN, rN         int64
 	cut            atomic.Bool
-	armed          atomic.Bool // counting starts once armed (after the prologue of the case)
+	armed          atomic.Bool // counting starts once armed: after all ids were opened and the prologue is over
+	gate           bool        // Read waits until armed (exact offsets); false: passes through uncounted until then
+	armedC         chan struct{}
+	closedC        chan struct{}
+	armOnce        sync.Once
+	closeOnce      sync.Once
 	onCut          func()
 }
 
@@ -328,6 +397,15 @@ func (c *cutConn) doCut() {
 		}
 		_ = c.Conn.Close()
 	}
+}
+
+func (c *cutConn) arm() {
+	c.armOnce.Do(func() { c.armed.Store(true); close(c.armedC) })
+}
+
+func (c *cutConn) Close() error {
+	c.closeOnce.Do(func() { close(c.closedC) })
+	return c.Conn.Close()
 }
 
 func (c *cutConn) Write(p []byte) (int, error) {
@@ -362,8 +440,18 @@ func (c *cutConn) Write(p []byte) (int, error) {
 }
 
 func (c *cutConn) Read(p []byte) (int, error) {
-	if c.rLimit < 0 || !c.armed.Load() {
+	if c.rLimit < 0 {
 		return c.Conn.Read(p)
+	}
+	if !c.armed.Load() {
+		if !c.gate {
+			return c.Conn.Read(p)
+		}
+		select {
+		case <-c.armedC:
+		case <-c.closedC:
+			return c.Conn.Read(p) // closed: reports the error of the closed socket
+		}
 	}
 	if c.cut.Load() {
 		return 0, errHarnessCut
